@@ -1292,6 +1292,12 @@ pub struct Br {
     /// the amount argument says nothing about what leaves the vault, the limit must be measured on the latter
     #[serde(default)]
     pub all2: Option<Wd>,
+    /// bit i set: the i-th plain withdrawal of the bracket carries ANOTHER key than the risk admin in its authority slot
+    /// (a helper's signature, tokens to the helper's account). Inside a receivership the withdraw instruction accepts any
+    /// signer, so the bracket is still the risk admin's (it signs start and end) and the withdrawal still counts
+    /// towards the daily limit.
+    #[serde(default)]
+    pub helper_mask: u8,
 }
 #[derive(Clone, Debug, Serialize, Deserialize, PartialEq)]
 pub struct DCase {
@@ -1312,7 +1318,7 @@ const GAPS: &[u32] = &[0, 1, 100, 43_200, 86_399, 86_400, 86_401, 172_800];
 fn dcase_strategy() -> BoxedStrategy<DCase> {
     let wd = (prop_oneof![2 => Just(0u8), 3 => Just(1u8)], prop_oneof![3 => 0u32..20, 2 => 20u32..2_000, 1 => 2_000u32..10_000], prop_oneof![5 => -2i8..=0, 2 => 1i8..=2], prop_oneof![3 => Just(0u16), 2 => 1u16..1000, 1 => Just(999u16)])
         .prop_map(|(mode, dollars, delta, frac_pm)| Wd { mode, dollars, delta, frac_pm });
-    let br = (prop::sample::select(GAPS.to_vec()), prop::collection::vec(wd.clone(), 1..=3), prop_oneof![6 => 1_050u16..1_500, 1 => 900u16..1_000, 1 => Just(1_000u16)], prop::option::weighted(0.35, wd.clone())).prop_map(|(gap, ws, repay_pm, all2)| Br { gap, ws, repay_pm, repay_all: all2.is_none() && repay_pm % 4 == 1, all2 });
+    let br = (prop::sample::select(GAPS.to_vec()), prop::collection::vec(wd.clone(), 1..=3), prop_oneof![6 => 1_050u16..1_500, 1 => 900u16..1_000, 1 => Just(1_000u16)], prop::option::weighted(0.35, wd.clone()), prop_oneof![5 => Just(0u8), 3 => 1u8..8]).prop_map(|(gap, ws, repay_pm, all2, helper_mask)| Br { gap, ws, repay_pm, repay_all: all2.is_none() && repay_pm % 4 == 1, all2, helper_mask });
     (
         prop_oneof![Just(6u8), Just(8u8), Just(9u8)],
         0u8..5,
@@ -1381,6 +1387,8 @@ pub struct DStats {
     pub outside_checked: u32,
     pub withdraw_all_in_bracket: u32,
     pub withdraw_all_committed: u32,
+    pub helper_signed_in_bracket: u32,
+    pub helper_signed_committed: u32,
     pub codes: Vec<u64>,
 }
 
@@ -1396,6 +1404,11 @@ pub fn run_dcase(c: &DCase, st: &mut DStats) -> Result<(), (String, String)> {
     let a1 = w.make_token_acct(&w.banks[1].clone(), risk, 1 << 60);
     w.vm.set(rt0, a0);
     w.vm.set(rt1, a1);
+    // a helper (any other key) with its own token account for the collateral mint
+    let helper = w.roles.stranger;
+    let ht0 = kp("c12_helper_tok", 0);
+    let ah = w.make_token_acct(&w.banks[0].clone(), helper, 0);
+    w.vm.set(ht0, ah);
     if c.limit != 0 {
         if w.vm.exec(&ix_delev_limit(&w, c.limit, w.roles.admin)).is_err() {
             return Ok(());
@@ -1494,7 +1507,8 @@ pub fn run_dcase(c: &DCase, st: &mut DStats) -> Result<(), (String, String)> {
             ixs.push(w.ix_withdraw_with(victim, risk, 2, rt2, 0, Some(true), riskm.clone()));
             st.withdraw_all_in_bracket += 1;
         }
-        for wd in &br.ws {
+        let mut helper_used = false;
+        for (wi_idx, wd) in br.ws.iter().enumerate() {
             if c.limit != 0 && now - m_start >= 86_400 {
                 m_start = now;
                 m_floor = q_zero();
@@ -1532,7 +1546,15 @@ pub fn run_dcase(c: &DCase, st: &mut DStats) -> Result<(), (String, String)> {
                     exact_hit = true;
                 }
             }
-            ixs.push(w.ix_withdraw_with(victim, risk, 0, rt0, amount, None, riskm.clone()));
+            if br.helper_mask & (1 << wi_idx) != 0 {
+                ixs.push(w.ix_withdraw_with(victim, helper, 0, ht0, amount, None, riskm.clone()));
+                helper_used = true;
+            } else {
+                ixs.push(w.ix_withdraw_with(victim, risk, 0, rt0, amount, None, riskm.clone()));
+            }
+        }
+        if helper_used {
+            st.helper_signed_in_bracket += 1;
         }
         if ixs.len() == 1 {
             continue;
@@ -1595,6 +1617,9 @@ pub fn run_dcase(c: &DCase, st: &mut DStats) -> Result<(), (String, String)> {
         if all2_amount.is_some() {
             st.withdraw_all_committed += 1;
         }
+        if helper_used {
+            st.helper_signed_committed += 1;
+        }
         // commit the model window
         if restarted {
             st.window_restarts += 1;
@@ -1643,7 +1668,7 @@ pub fn run_dcase(c: &DCase, st: &mut DStats) -> Result<(), (String, String)> {
 // ==========================================================================================
 // Driver
 // ==========================================================================================
-const RULE: &str = "proptest, one stream per instruction. Parts A/B: 3-bank worlds (SPL / Token-2022 / transfer-fee mints, fixed / Pyth / Switchboard oracles, e-mode, caps) with depositors and borrowers in every bank; the target bank's pre-state flag word is set through real instructions (configure_bank: freeze / permissionless bad debt / tokenless repayments; force_tokenless_repay_complete; optional emissions set-up; CLOSE_ENABLED from creation). A: every delegated-admin instruction (interest-only, limits-only, e-mode configure, e-mode clone by e-mode or group admin, setup_emissions, update_emissions_parameters, init/write_bank_metadata, force_tokenless_repay_complete, purge_deleverage_balance) with every Option combination, 64-bit flag words (uniform, single bits, all subsets of the two emission bits, emission bits mixed with others), limits 0/1/MAX, valid and invalid curves / e-mode entries / amounts; after each SUCCESS the whole account store is diffed field by field and every changed field/account must lie in the role's frame written from the statement (cache.*, last_update always allowed). B: with FREEZE_SETTINGS set, configure_bank (all BankConfigOpt combinations incl. freeze_settings=false), interest-only, limits-only, configure_bank_oracle, set_fixed_oracle_price, e-mode configure/clone, setup/update emissions by the proper signer: weights, oracle settings, curve, risk tier, cap, operational state, asset tag and the freeze bit are unchanged after any success. C: risk-admin brackets [start_deleverage, withdraw x1-3, repay (a quarter of them repay_all: the account ends debt-free), end_deleverage] with withdraw sizes around (limit - withdrawn) +-2 $, limits 0..50k $, clock gaps {0,1,100,43200,86399,86400,86401,172800} s: committed bracket => health not lower (model enclosure), flags cleared, sum of per-withdrawal whole dollars in the model's day window <= limit; no withdraw outside / after a bracket. Non-trivial = successful admin instruction on a frozen bank or with an out-of-remit bit/field in its argument; committed or rejected deleverage bracket that crosses the limit, hits it exactly, or restarts the day window.";
+const RULE: &str = "proptest, one stream per instruction. Parts A/B: 3-bank worlds (SPL / Token-2022 / transfer-fee mints, fixed / Pyth / Switchboard oracles, e-mode, caps) with depositors and borrowers in every bank; the target bank's pre-state flag word is set through real instructions (configure_bank: freeze / permissionless bad debt / tokenless repayments; force_tokenless_repay_complete; optional emissions set-up; CLOSE_ENABLED from creation). A: every delegated-admin instruction (interest-only, limits-only, e-mode configure, e-mode clone by e-mode or group admin, setup_emissions, update_emissions_parameters, init/write_bank_metadata, force_tokenless_repay_complete, purge_deleverage_balance) with every Option combination, 64-bit flag words (uniform, single bits, all subsets of the two emission bits, emission bits mixed with others), limits 0/1/MAX, valid and invalid curves / e-mode entries / amounts; after each SUCCESS the whole account store is diffed field by field and every changed field/account must lie in the role's frame written from the statement (cache.*, last_update always allowed). B: with FREEZE_SETTINGS set, configure_bank (all BankConfigOpt combinations incl. freeze_settings=false), interest-only, limits-only, configure_bank_oracle, set_fixed_oracle_price, e-mode configure/clone, setup/update emissions by the proper signer: weights, oracle settings, curve, risk tier, cap, operational state, asset tag and the freeze bit are unchanged after any success. C: risk-admin brackets [start_deleverage, withdraw x1-3 (in three eighths of the brackets some of them carry a helper's key and token account instead of the risk admin's - inside a receivership any signer may withdraw, the withdrawal still counts), repay (a quarter of them repay_all: the account ends debt-free), end_deleverage] with withdraw sizes around (limit - withdrawn) +-2 $, limits 0..50k $, clock gaps {0,1,100,43200,86399,86400,86401,172800} s: committed bracket => health not lower (model enclosure), flags cleared, sum of per-withdrawal whole dollars in the model's day window <= limit; no withdraw outside / after a bracket. Non-trivial = successful admin instruction on a frozen bank or with an out-of-remit bit/field in its argument; committed or rejected deleverage bracket that crosses the limit, hits it exactly, or restarts the day window.";
 
 fn split_err(msg: &str) -> (String, String) {
     msg.split_once('|').map(|(a, b)| (a.to_string(), b.to_string())).unwrap_or((msg.to_string(), msg.to_string()))
@@ -1726,6 +1751,8 @@ fn run_delev_stream(ctx: &Ctx, wi: usize, cases: u32, rep: &mut Report) {
             rep.label_n("C:outside-bracket-withdraw-refused", st.outside_checked as u64);
             rep.label_n("C:bracket-with-withdraw_all", st.withdraw_all_in_bracket as u64);
             rep.label_n("C:bracket-with-withdraw_all-committed", st.withdraw_all_committed as u64);
+            rep.label_n("C:bracket-with-helper-signed-withdraw", st.helper_signed_in_bracket as u64);
+            rep.label_n("C:bracket-with-helper-signed-withdraw-committed", st.helper_signed_committed as u64);
             for g in &st.boundary_commit {
                 rep.label(&format!("C:window-restart-at-gap:{g}"));
             }
